@@ -80,8 +80,44 @@ func fieldElem(r *hx.Rng) []byte {
 	return b
 }
 
+// hardHashMessage searches (with math/big's Jacobi symbol, independently of the code under
+// test) for a message whose try-and-increment search needs at least minK increments.
+func hardHashMessage(r *hx.Rng, minK int) []byte {
+	three := big.NewInt(3)
+	for {
+		m := []byte(fmt.Sprintf("relay-entry-%d", r.U64()))
+		h := sha256.Sum256(m)
+		x := new(big.Int).Mod(new(big.Int).SetBytes(h[:]), bn256.P)
+		k := 0
+		for ; k < minK; k++ {
+			a := new(big.Int).Mul(x, x)
+			a.Mul(a, x).Add(a, three).Mod(a, bn256.P)
+			if big.Jacobi(a, bn256.P) != -1 {
+				break
+			}
+			x.Add(x, big.NewInt(1))
+		}
+		if k >= minK {
+			return m
+		}
+	}
+}
+
 func gen(r *hx.Rng, n int, tier string) []string {
 	var ops []string
+	// hash inputs that need many increments (a bounded search loop must not give up on them)
+	hard := []int{8, 12, 16, 17, 18}
+	if tier == "thorough" {
+		hard = append(hard, 19, 20, 21)
+	}
+	if n < 50 {
+		hard = hard[:2]
+	}
+	for _, k := range hard {
+		m := hardHashMessage(r, k)
+		h := sha256.Sum256(m)
+		ops = append(ops, "hash "+hex.EncodeToString(m)+" "+hex.EncodeToString(h[:]))
+	}
 	for i := 0; i < n; i++ {
 		switch k := r.Intn(20); {
 		case k < 3: // G1 round trip on k*G
@@ -268,12 +304,19 @@ func exec(op string) (string, string) {
 		if !bytes.Equal(real[:], hs) {
 			return "bad-op", "bad" // the op line must carry the real SHA-256 (external behaviour = parameter)
 		}
+		tag := "hash"
+		if strings.HasPrefix(string(m), "relay-entry-") {
+			tag = "hash+hard"
+		}
 		a := altbn128.G1HashToPoint(m)
 		b2 := altbn128.G1HashToPoint(append([]byte(nil), m...))
-		if !bytes.Equal(a.Marshal(), b2.Marshal()) {
-			return "nondeterministic " + hex.EncodeToString(a.Marshal()), "hash"
+		if a == nil || b2 == nil {
+			return "nil-point", tag
 		}
-		return hex.EncodeToString(a.Marshal()), "hash"
+		if !bytes.Equal(a.Marshal(), b2.Marshal()) {
+			return "nondeterministic " + hex.EncodeToString(a.Marshal()), tag
+		}
+		return hex.EncodeToString(a.Marshal()), tag
 	case "fmul":
 		if len(f) != 5 {
 			return "bad-op", "bad"
